@@ -6,7 +6,9 @@ here="$(cd "$(dirname "$0")" && pwd)"
 cd "$here/lean"
 export CARGO_NET_OFFLINE=true GOPROXY=off PIP_NO_INDEX=1
 lake build PtModel ptdriver
-lake build PtGen PtProofs
+# Proof modules are (re)built by each check for its own property; a failure of one
+# property's module must not prevent the others from being set up.
+lake build PtGen PtProofs || echo "setup: some proof modules did not build; the checks of those properties will report it"
 cd "$here"
 /venv/bin/python -c "import sys; sys.path.insert(0,'/repo'); import pytato, numpy; print('pytato import ok, numpy', numpy.__version__)"
 mkdir -p evidence replays
